@@ -17,6 +17,7 @@ class Ctx:
         # implementation-only (e.g. runs far beyond the model's instruction budget);
         # their model line is the constant SKIPPED and is never compared
         self.skip = getattr(mod, "MODEL_SKIP", None)
+        NOFUEL_NO_ANSWER[0] = bool(getattr(mod, "MODEL_NOFUEL_IS_NO_ANSWER", False))
         # optional CASES_PER_SHARD: modules whose cases are expensive ask for more, smaller shards
         self.kw = {"per_shard": mod.CASES_PER_SHARD} if hasattr(mod, "CASES_PER_SHARD") else {}
         # optional SHARD_TIMEOUT (seconds): a shard running longer is replayed case by case and the
@@ -48,7 +49,20 @@ SKIPPED = "SKIPPED"
 MODEL_TIMEOUTS = [0]
 
 
+NOFUEL_NO_ANSWER = [False]
+
+
 def _no_answer(line):
+    # modules whose programs are known to terminate and whose sizes can exceed the model's instruction budget
+    # (EVAL_FUEL = 400000 instructions; C04 measures loops of 1000 iterations through nested derived forms) declare
+    # MODEL_NOFUEL_IS_NO_ANSWER: an exhausted model budget is then not an answer of the model (counted with the timeouts)
+    if NOFUEL_NO_ANSWER[0] and "NOFUEL" in line:
+        MODEL_TIMEOUTS[0] += 1
+        return True
+    return _no_answer0(line)
+
+
+def _no_answer0(line):
     """UNMODELLED: no model for this builtin/arm.  TIMEOUT/NOTRUN: the extracted model (slower than the
     implementation by orders of magnitude on large data) did not finish within the runner's per-case limit:
     that is not an answer of the model, the case is implementation-only; counted in the evidence"""
